@@ -12,7 +12,7 @@ LEVEL_TEXT = ('Part 1 (assignments, prints, nested if/elif/else over two variabl
               'issue, on none an Initialization Problem, on some a Possible Initialization Problem, and the unused-variable report '
               'must agree with the paths. Part 2 (while/for loops, function definitions and calls): programs are run in plain CPython '
               'for sampled decision vectors (loop counts 0, 1, 2); every NameError/UnboundLocalError observed at (name, line) must be '
-              'reported by TIFA at that line with one of the three labels.')
+              'reported by TIFA at that line with one of the three labels. Every ninth program is analysed as a later section of a file.')
 LEVEL_NOTE = ('Branch conditions are input()-comparisons, so every outcome vector is realisable and TIFA sees no variable in them. '
               'Unused rule: must report when on every path the variable is assigned and not read after its last assignment (or not '
               'touched at all); must not report when on every path it is read after its last assignment; other mixes are left open by '
